@@ -102,7 +102,9 @@ def judge(run, rule, args, prev_ths, where, origin):
                            reproduce='macro.eval(args, prevs), then theory.check_proof(<sorry premises + macro step>, ProofReport(), check_level=0): rpt.gaps'),
                       key=key_base + ':expansion-has-gaps')
         return 'expansion-has-gaps'
-    extra = [h for h in ex.hyps if h not in allowed_hyps and h not in ev.hyps]
+    # the checked expansion must establish what the evaluation claims: same conclusion, and no hypothesis the
+    # evaluation does not report (a premise's hypothesis that the evaluation drops is exactly such a one)
+    extra = [h for h in ex.hyps if h not in ev.hyps]
     if ex.prop != ev.prop or extra:
         run.violation('property', 'macro %s: evaluation reports %s but the expansion establishes %s [%s]' % (rule, sstr(ev), sstr(ex), origin),
                       dict(macro=rule, args=sstr(args), premises=[sstr(t) for t in prev_ths], eval=sstr(ev), expansion=sstr(ex), where=where),
